@@ -399,6 +399,30 @@ func (c *gsCtx) assign(x *ast.AssignStmt, rest []ast.Stmt, env *gsEnv, k gsCont)
 	if len(x.Lhs) != 1 {
 		g.fail(x.Pos(), "multiple assignment from %s is outside the fragment", exprText(x.Rhs[0]))
 	}
+	// l := strings.Split(..) ; for i := range l { l[i] = f(l[i]) }   ==>   l := List.map (fun e => f e) (split ..)
+	// (the slice is fresh and no other name for it exists yet, so the update in place is a map)
+	if _, isSplit := c.isLib(x.Rhs[0], env, "strings.Split"); isSplit && x.Tok == token.DEFINE && len(rest) > 0 {
+		if ln, ok := gsIdent(x.Lhs[0]); ok && ln != "_" {
+			if rs, ok := rest[0].(*ast.RangeStmt); ok {
+				if elem, body, ok := gsInPlaceMap(ln, rs); ok {
+					l := c.coerce(c.expr(x.Rhs[0], env), gsTStrList, x.Rhs[0].Pos())
+					benv := env.clone()
+					if _, exists := benv.vars[elem]; exists {
+						g.fail(rs.Pos(), "internal: element name %s is taken", elem)
+					}
+					xv := &gsVar{coq: gsCoqIdent(elem), ty: gsTString}
+					benv.declare(elem, xv)
+					f := c.coerce(c.expr(body, benv), gsTString, body.Pos())
+					if len(f.binds) > 0 {
+						g.fail(body.Pos(), "a possibly panicking expression inside the loop is outside the fragment")
+					}
+					name := c.lhs(x.Lhs[0], x.Tok, gsTStrList, env, nil)
+					text := fmt.Sprintf("let %s := List.map (fun %s : bytes => %s) %s in\n", name, xv.coq, f.text, l.p())
+					return gsBinds(l.binds, text+c.stmts(rest[1:], env, k))
+				}
+			}
+		}
+	}
 	e := c.expr(x.Rhs[0], env)
 	ty := gsConcrete(e.ty)
 	if ty == gsTByte {
@@ -596,4 +620,71 @@ func (c *gsCtx) rangeMap(x *ast.RangeStmt, rest []ast.Stmt, env *gsEnv, k gsCont
 	}
 	text := fmt.Sprintf("let %s := %s ++ List.map (fun %s : bytes => %s) %s in\n", av.coq, av.coq, xv.coq, f.text, l.p())
 	return gsBinds(l.binds, text+c.stmts(rest, env, k))
+}
+
+// gsInPlaceMap recognises `for i := range l { l[i] = E }` where E mentions l and i only as l[i]; it returns E with
+// every l[i] replaced by a fresh identifier.
+func gsInPlaceMap(l string, rs *ast.RangeStmt) (elem string, body ast.Expr, ok bool) {
+	if rs.Tok != token.DEFINE || rs.Key == nil || rs.Value != nil || len(rs.Body.List) != 1 {
+		return
+	}
+	in, isId := gsIdent(rs.Key)
+	if xn, isX := gsIdent(rs.X); !isId || in == "_" || !isX || xn != l {
+		return
+	}
+	as, isAs := rs.Body.List[0].(*ast.AssignStmt)
+	if !isAs || as.Tok != token.ASSIGN || len(as.Lhs) != 1 || len(as.Rhs) != 1 {
+		return
+	}
+	isElem := func(e ast.Expr) bool {
+		ix, isIx := e.(*ast.IndexExpr)
+		if !isIx {
+			return false
+		}
+		a, okA := gsIdent(ix.X)
+		b, okB := gsIdent(ix.Index)
+		return okA && okB && a == l && b == in
+	}
+	if !isElem(as.Lhs[0]) {
+		return
+	}
+	elem = l + "_elem"
+	good := true
+	var sub func(e ast.Expr) ast.Expr
+	sub = func(e ast.Expr) ast.Expr {
+		if isElem(e) {
+			return &ast.Ident{NamePos: e.Pos(), Name: elem}
+		}
+		switch y := e.(type) {
+		case *ast.Ident:
+			if y.Name == l || y.Name == in || y.Name == elem {
+				good = false // the slice or the index used otherwise than as l[i]
+			}
+			return y
+		case *ast.BasicLit:
+			return y
+		case *ast.ParenExpr:
+			return &ast.ParenExpr{Lparen: y.Lparen, X: sub(y.X), Rparen: y.Rparen}
+		case *ast.SelectorExpr:
+			return &ast.SelectorExpr{X: sub(y.X), Sel: y.Sel}
+		case *ast.CallExpr:
+			if y.Ellipsis.IsValid() {
+				good = false
+				return y
+			}
+			n := &ast.CallExpr{Fun: sub(y.Fun), Lparen: y.Lparen, Rparen: y.Rparen}
+			for _, a := range y.Args {
+				n.Args = append(n.Args, sub(a))
+			}
+			return n
+		case *ast.BinaryExpr:
+			return &ast.BinaryExpr{X: sub(y.X), OpPos: y.OpPos, Op: y.Op, Y: sub(y.Y)}
+		case *ast.UnaryExpr:
+			return &ast.UnaryExpr{OpPos: y.OpPos, Op: y.Op, X: sub(y.X)}
+		}
+		good = false
+		return e
+	}
+	body = sub(as.Rhs[0])
+	return elem, body, good
 }
